@@ -331,7 +331,9 @@ impl World {
             if c.is_migrating() { self.saw_migration = true; }
         }
         // ---- C01: partition in every served view ---------------------------------------------
-        for l in [0u64, 1, 2, 3] {
+        // in the long scale chains on 400/800-node clusters only limits 0 and 1 are checked per step
+        let limits: &[u64] = if self.quiet_views { &[0, 1] } else { &[0, 1, 2, 3] };
+        for l in limits.iter().cloned() {
             let v = { let _ = self.views(l as usize); self.view_cache[l as usize].take().expect("views") };
             for (name, (cv, _)) in v.clusters.iter() {
                 if let Some(why) = check_partition(cv) {
@@ -635,17 +637,17 @@ fn main() {
             if w.panicked { break; }
         }
     } else {
-        let (cases, len) = if args.thorough { (1500, 60) } else { (220, 40) };
+        let (cases, len) = if args.thorough { (700, 60) } else { (220, 40) };
         for _ in 0..cases { run_case(&mut w, &mut g, len); }
         // larger clusters (fewer, longer)
         g.big = true;
-        let big_cases = if args.thorough { 20 } else { 3 };
+        let big_cases = if args.thorough { 10 } else { 3 };
         for _ in 0..big_cases { run_case(&mut w, &mut g, 30); }
         g.big = false;
         // scale chains through the region where destinations already hold their final count
         if args.thorough {
-            run_scale_chain(&mut w, &mut g, 400, &[396, 368, 364, 200, 100, 8]);
-            run_scale_chain(&mut w, &mut g, 800, &[796, 400]);
+            run_scale_chain(&mut w, &mut g, 400, &[396, 368, 364, 100]);
+            run_scale_chain(&mut w, &mut g, 800, &[796]);
         } else {
             run_scale_chain(&mut w, &mut g, 64, &[60, 56, 28, 24, 8, 4, 16, 12]);
         }
